@@ -114,7 +114,7 @@ Proof.
       [lia | exact L | left; reflexivity |].
     exists fs. split; [exact Hrun|].
     destruct (zcp_computed_not_updated nat_truthy [] (op_c12 INR (fun p => p) other) msub madd 3 sp E raw [] 0 1 [] fs 0 Hrun) as (c' & V' & X);
-      [rewrite L; lia | right; reflexivity |].
+      [rewrite L; lia | right; left; reflexivity |].
     rewrite V in V'. injection V' as <-. exact X. }
   pose proof (Z22_infeasible) as (I1 & I2 & _).
   split; [|split].
